@@ -449,7 +449,7 @@ def c08(tier, seed):
     import configs
     import envelope
     from scenarios import cat, mr, caitems, cacat, scenario
-    n = 40 if tier == "quick" else 400
+    n = 40 if tier == "quick" else 150
     y = dict(yvals=(0, 1, 3), ymeasures=("mean", "sum", "stddev"), valid_counts=True)
     base = [
         scenario("cat_x_cat", [cat("A", 4, miss=[2], vals=[1, 9, 3, 2]), cat("B", 4, miss=[4], vals=[2, None, 1, 5])],
